@@ -72,7 +72,7 @@ def make_rows(kind, n, rowseed):
             rows.append({'id': 1 + i % (1 + rowseed % 3)})
         elif kind == 'flat':
             row = {'id': i, 's': rng.choice(_WORDS),
-                   'f': rng.choice([0.0, -0.0, 1.5, -2.25, 1e300, 5e-324, 0.1, float(i)]),
+                   'f': rng.choice([0.0, -0.0, 1.5, -2.25, 1e300, 5e-324, 0.1, float(i), float('nan'), float('inf')]),
                    'k': rng.choice([0, -1, 2 ** 31 - 1, -2 ** 31, i % 7])}
             if i % 3 == 2:       # the same fields in another key order (rows merged from two producers)
                 row = {k: row[k] for k in ('k', 'f', 's', 'id')}
@@ -84,7 +84,7 @@ def make_rows(kind, n, rowseed):
                 'c': {'sa': rng.choice(_WORDS), 'sb': [rng.randint(0, 65535)
                                                         for _ in range(rng.choice([0, 1, 3]))],
                       'sc': {'x': rng.choice([0.5, -1e-9, 3.0]), 'y': rng.randint(-128, 127)}},
-                'l': [rng.choice([0.25, -7.0, 1e10]) for _ in range(rng.choice([0, 0, 2]))],
+                'l': [rng.choice([0.25, -7.0, 1e10, float('nan')]) for _ in range(rng.choice([0, 0, 2]))],
                 'ls': rng.choice([[], ['a', ''], None, ['\u00e9']]),
                 'f': rng.choice([0.5, -0.25, 1024.0, None]),     # exact in float32
             })
@@ -109,13 +109,24 @@ def enc_ids(ids):
     return {'n': len(ids), 'nr': len(r), 'r': r[:CAP_RUNS]}
 
 
+def _same(a, b):
+    """equality of rows with NaN equal to NaN (a gap in a float column is a value)"""
+    if isinstance(a, float) and isinstance(b, float):
+        return (a != a and b != b) or a == b
+    if isinstance(a, dict) and isinstance(b, dict):
+        return a.keys() == b.keys() and all(_same(a[k], b[k]) for k in a)
+    if isinstance(a, (list, tuple)) and isinstance(b, (list, tuple)):
+        return len(a) == len(b) and all(_same(x, y) for x, y in zip(a, b))
+    return a == b
+
+
 def ident(row, rows):
     """id of the source row equal to `row` (all columns), 0 if there is none"""
     try:
         rid = row.get('id')
     except Exception:
         return 0
-    if type(rid) is int and 1 <= rid <= len(rows) and rows[rid - 1] == row:
+    if type(rid) is int and 1 <= rid <= len(rows) and _same(rows[rid - 1], row):
         return rid
     return 0
 
@@ -124,7 +135,7 @@ def ident_seq(seq, rows, kind):
     """source-row ids of a sequence of rows read back.  Rows that carry no unique id are
     identified by their position (row j must equal source row j)."""
     if kind in ('ids-const', 'ids-period'):
-        return [j + 1 if j < len(rows) and seq[j] == rows[j] else 0 for j in range(len(seq))]
+        return [j + 1 if j < len(rows) and _same(seq[j], rows[j]) else 0 for j in range(len(seq))]
     return [ident(r, rows) for r in seq]
 
 
@@ -188,6 +199,8 @@ def execute(case, tmpdir):
     path = os.path.join(tmpdir, 'c20.parquet')
     if os.path.exists(path):
         os.remove(path)
+    if case.get('rowtype') == 'sqlite':      # (sqlite stores a NaN as NULL: no NaN in these rows)
+        rows = [{k: (0.5 if isinstance(v, float) and v != v else v) for k, v in r.items()} for r in rows]
     src_rows = rows
     if case.get('rowtype') == 'sqlite' and kind in ('ids', 'flat') and rows:
         # the rows as a database cursor hands them out: sqlite3.Row objects (indexable by
